@@ -36,8 +36,7 @@ def helper_paths(ctx, qual, helper_prefix):
     return fi, out
 
 
-def run(ctx):
-    rule = "C09.R6"
+def run(ctx, rule="C09.R6"):
     p0 = P0(IO)
     # ---- parse_peek
     fi, lst = helper_paths(ctx, "Peek._emitparse", "parse_peek")
